@@ -195,10 +195,17 @@ def check_c16(tier, seed):
 
 def check_c12(tier, seed):
     def guards(res, reports):
-        for k in ("nonfinite_offered:ctor", "nonfinite_offered:TryFrom", "nonfinite_offered:FromStr"):
+        for k in ("nonfinite_offered:ctor", "nonfinite_offered:TryFrom", "nonfinite_offered:FromStr", "nonfinite_offered:Deserialize", "nonfinite_offered:Arbitrary"):
             res.guard(k, sum_guard(reports, k), 1)
         res.guard("triples", sum_guard(reports, "triples"), 100000)
         res.guard("declarations_with_order_axioms", sum(1 for r in reports if "order-axioms-on-special-set" in r["classes"]), 4)
+        entry = {}
+        for r in reports:
+            for k in ("try_new", "TryFrom", "FromStr", "Default", "Deserialize", "Arbitrary"):
+                entry[k] = entry.get(k, 0) + r["hist"].get(k, 0)
+        res.extra.setdefault("coverage_extra", {})["entry_points_values_asserted_finite"] = entry
+        for k, v in entry.items():
+            res.guard("values_observed[%s]" % k, v, 1)
     return ctor_flow("C12", tier, seed,
                      "f32/f64 declarations with `finite` (+ optional bounds, sanitizer, predicate) deriving PartialEq, Eq, PartialOrd, Ord and every entry-point trait; "
                      "(1) every value leaving try_new / TryFrom / FromStr / Default is asserted finite (NaN payloads, +-inf, 1e400 offered; thorough: all 2^32 f32 patterns); "
